@@ -253,6 +253,10 @@ pub struct HSpec {
     pub end_tag_ops: Option<Vec<Op>>,
     /// Log what the handler sees (observer). Marker-only handlers may switch it off.
     pub log: bool,
+    /// Text handlers only: apply `ops` only to the chunk with `last_in_text_node` (makes a
+    /// mutating text handler insensitive to how the node is fragmented into chunks).
+    #[serde(default)]
+    pub last_only: bool,
 }
 
 impl HSpec {
@@ -263,6 +267,7 @@ impl HSpec {
             ops: vec![],
             end_tag_ops: None,
             log: true,
+            last_only: false,
         }
     }
     pub fn obs_end_tag(sel: &str) -> Self {
@@ -272,6 +277,7 @@ impl HSpec {
             ops: vec![],
             end_tag_ops: Some(vec![]),
             log: true,
+            last_only: false,
         }
     }
     pub fn with_ops(kind: HKind, sel: &str, ops: Vec<Op>) -> Self {
@@ -281,6 +287,7 @@ impl HSpec {
             ops,
             end_tag_ops: None,
             log: true,
+            last_only: false,
         }
     }
 }
@@ -609,6 +616,7 @@ macro_rules! make_builder {
                 let sh = shared.clone();
                 let ops = h.ops.clone();
                 let do_log = h.log;
+                let last_only = h.last_only;
                 match h.kind {
                     HKind::Element => {
                         let end_ops = h.end_tag_ops.clone();
@@ -647,7 +655,9 @@ macro_rules! make_builder {
                                 push(&sh, observe_text(t, reg));
                             }
                             tick(&sh, fail_at)?;
-                            apply_text_ops(t, &ops);
+                            if !last_only || t.last_in_text_node() {
+                                apply_text_ops(t, &ops);
+                            }
                             Ok(())
                         };
                         settings = settings.append_element_content_handler((
@@ -703,7 +713,9 @@ macro_rules! make_builder {
                                 push(&sh, observe_text(t, reg));
                             }
                             tick(&sh, fail_at)?;
-                            apply_text_ops(t, &ops);
+                            if !last_only || t.last_in_text_node() {
+                                apply_text_ops(t, &ops);
+                            }
                             Ok(())
                         };
                         settings = settings.append_document_content_handler(
